@@ -84,6 +84,7 @@ static void c07_run(vf_case *c)
                 uint64_t mark = vf_ledger_mark(); if (t % 3 == 0) vf_ws_fill(c, buf0, G + 64);
                 fact_run R; fact_do(P, &A, &opt, mypc, work, (int_t)L, ilu, &R);
                 if (vf_events_count(VF_EV_STACK_OVERLAP) > 0) { vf_viol(c, "workspace-stack-overlap", "workspace %zu bytes (align %d, fill %d): after a storage growth the head of the workspace stack passed its tail; info=%lld", L, align4 ? 4 : 8, f, (long long)R.info); vf_events_reset(); }
+                if (R.info > n && t == 0) vf_viol(c, "generous-workspace-reported-short", "workspace of %zu bytes (several times the dense n x n factors, fill %d): info=%lld, but library allocation succeeded with info=%lld", L, f, (long long)R.info, (long long)info0);
                 if (R.info > n) { failed = 1; nshort++; }
                 else if (R.info != info0) vf_viol(c, "info-depends-on-storage", "workspace %zu bytes (align %d, fill %d): info=%lld, reference info=%lld", L, align4 ? 4 : 8, f, (long long)R.info, (long long)info0);
                 else if (run_hash(P, &R) != h0) vf_viol(c, "factors-depend-on-storage", "workspace %zu bytes (align %d, fill %d, %d expansions): perms/L/U bytes differ from the library-allocation run", L, align4 ? 4 : 8, f, R.stat.expansions);
